@@ -5,6 +5,7 @@ shape) with 0-3 further messages pipelined behind it, against a Daemon whose val
 the plan says (accept / raise / return odd values).  Every execution of a registered object's method is
 logged with the connection it came from; the server->client direction is recorded by the middlebox.
 """
+import re
 import socket
 import threading
 
@@ -257,6 +258,12 @@ class PreHandshakeWorld(World):
             rest = [build_msg(_fix(x)) for x in spec["pipe"]]
             r["m1_len"] = len(m1)
             r["total_len"] = len(m1) + sum(len(x) for x in rest)
+            sends = r["sends"] = {}     # argument of a message -> stamp just before the peer began to send it (first occurrence)
+
+            def note(specs):
+                st = sched.stamp()
+                for x in specs:
+                    sends.setdefault(x.get("arg"), st)
             try:
                 if spec.get("pieces") and m1:
                     # a slow but complete first message: a few bytes now, the rest in pieces with pauses (each pause well below
@@ -269,19 +276,23 @@ class PreHandshakeWorld(World):
                         prev = c
                         if c < len(m1):
                             sched.sleep(spec.get("piece_gap", 0.3))
-                    for x in rest:
+                    for x, xs in zip(rest, spec["pipe"]):
                         if x:
+                            note([xs])
                             sk.sendall(x)
                 elif spec["split"]:
                     if m1:
+                        note([spec["m1"]])
                         sk.sendall(m1)
-                    for x in rest:
+                    for x, xs in zip(rest, spec["pipe"]):
                         if spec["gap"]:
                             sched.sleep(spec["gap"])
                         if x:
+                            note([xs])
                             sk.sendall(x)
                 else:
                     if m1 or rest:
+                        note([spec["m1"]] + list(spec["pipe"]))
                         sk.sendall(m1 + b"".join(rest))
             except OSError:
                 r["send_error"] = True
@@ -340,8 +351,18 @@ class PreHandshakeWorld(World):
         self._judge(ctx, plan, net, victim, daemon, results, legit)
         if unreg["ret"] is not None:
             # after unregister() returned, the id is unknown: no handshake for it may be accepted, no method of it may run
+            # (a request that was already on its way when unregister() returned may have been looked up before: only a
+            #  request that the peer began to send afterwards was certainly dispatched afterwards)
+            sent_at = {}
+            for r in results.values():
+                for arg, st in (r.get("sends") or {}).items():
+                    sent_at.setdefault((r["conn"], arg), st)
             for stamp, conn, meth, tok in tmpobj._log:
-                if stamp > unreg["ret"]:
+                mo = re.search(r"\d+$", tok) if isinstance(tok, str) else None
+                began = sent_at.get((conn, int(mo.group()) if mo else None))
+                if began is None:       # not attributable to one message: then the connection itself must be younger
+                    began = min([r["sent_stamp"] for r in results.values() if r.get("conn") == conn and "sent_stamp" in r], default=None)
+                if stamp > unreg["ret"] and began is not None and began > unreg["ret"]:
                     ctx.violate("executed-after-unregister", meth, "%s(%r) ran on the unregistered object for connection %r" % (meth, tok, conn))
             for pi, spec in enumerate(plan["peers"]):
                 r = results.get(pi)
